@@ -671,10 +671,70 @@ func c09ReusedInputs(c *core.Ctx, r *core.Rand) {
 				}
 			}
 		}
+		// ... and back to back on ONE certificate variable: filled with a permitted pair and used, then
+		// refilled with a prohibited pair of the same key sizes and used again at once (a conversion
+		// that remembers "the certificate at this address" answers for the previous content)
+		if step%2 == 0 {
+			swaps := [][2][2]int{{{7, 4}, {8, 4}}, {{7, 4}, {11, 4}}, {{7, 4}, {7, 5}}, {{7, 0}, {8, 0}}, {{7, 0}, {11, 0}}, {{7, 4}, {7, 7}}}
+			sw := swaps[r.Pick(len(swaps))]
+			var cv certificate.Certificate
+			kk, _ := gen.KACOf(r, sw[0][0], sw[0][1])
+			pk, e1 := lib.CryptoKeyOf(sw[0][1], kk.CryptoKey())
+			spk, e2 := lib.SigningKeyOf(sw[0][0], kk.SigningKey())
+			if e1 == nil && e2 == nil {
+				for phase, pr := range sw {
+					ct, err := lib.BuildCert(rm.KeyCert(pr[0], pr[1], nil))
+					if err != nil || ct == nil {
+						break
+					}
+					cv = *ct // the same variable, new content
+					var kac *keys_and_cert.KeysAndCert
+					rsite := "router_identity.NewRouterIdentity"
+					c.Call("c09/reused-inputs/certificate-variable", []byte(fmt.Sprint(sw, phase)), func() {
+						if router {
+							if ri, err := router_identity.NewRouterIdentity(pk, spk, &cv, kk.Padding()); err == nil && ri != nil {
+								kac = ri.KeysAndCert
+							}
+							return
+						}
+						rsite = "destination.NewDestination(KeyCertificateFromCertificate)"
+						kc, err := key_certificate.KeyCertificateFromCertificate(&cv)
+						if err != nil || kc == nil {
+							return
+						}
+						k2, err := keys_and_cert.NewKeysAndCert(kc, pk, kk.Padding(), spk)
+						if err != nil || k2 == nil {
+							return
+						}
+						if d, err := destination.NewDestination(k2); err == nil && d != nil {
+							kac = d.KeysAndCert
+						}
+					})
+					if kac != nil {
+						held = append(held, heldT{kac, router, rsite + " (one certificate variable refilled)", pr[0], pr[1]})
+						c.Bucket("reused-inputs/certificate-variable/returned")
+					}
+				}
+			}
+		}
 		for hi, h := range held {
 			ys, yc, ok := typesOf(h.kac)
 			if !ok {
 				continue
+			}
+			// what the identity SERIALISES as counts as much as what its accessors say
+			if sb, err := h.kac.Bytes(); err == nil {
+				if dk, _, derr := rm.DecodeKAC(sb); derr == nil {
+					if ws, wc, isKey, ok2 := dk.Cert.KeyTypes(); isKey && ok2 && (ws != ys || wc != yc) {
+						bad2 := rm.ProhibitedInDestination(ws, wc)
+						if h.router {
+							bad2 = rm.ProhibitedInRouterIdentity(ws, wc)
+						}
+						if bad2 {
+							ys, yc = ws, wc
+						}
+					}
+				}
 			}
 			isBad := rm.ProhibitedInDestination(ys, yc)
 			what := "Destination"
